@@ -159,6 +159,17 @@ func run(c Case) *h.Result {
 		res.Err = fmt.Sprintf("program:\n%s\n  value %s as expected, but the side effects differ\n  expected trace: %s\n  got trace:      %s", c.Prog, showVals(want.Vals), want.Trace, gotTrace)
 		return res
 	}
+	// the whole program once more in the same session: every defun is now a redefinition, closures defined
+	// inside a let get a fresh binding, and the results must be the same again
+	m.Trace = nil
+	want2 := m.Run(forms)
+	ev.ResetTrace()
+	got2 := ev.EvalForms(scope, c.Prog)
+	gotTrace2 := ev.TraceString()
+	if got2.Kind != ev.Value || showVals(want2.Vals) != show(got2.Val) || want2.Trace != gotTrace2 {
+		res.Err = fmt.Sprintf("program evaluated a second time in the same session:\n%s\n  expected value %s\n  got %s\n  expected trace: %s\n  got trace:      %s", c.Prog, showVals(want2.Vals), got2, want2.Trace, gotTrace2)
+		return res
+	}
 	special := kinds["setq"] || kinds["lambda"] || kinds["dotimes"] || kinds["dolist"] || kinds["do"] || kinds["do*"] ||
 		kinds["multiple-value-bind"] || kinds["multiple-value-list"] || kinds["funcall"] || kinds["mapcar"]
 	res.NonTrivial = len(kinds) >= 3 && depth >= 3 && len(m.Trace) >= 2 && special
